@@ -152,7 +152,7 @@ func c16Hand(r *rand.Rand, k int) (c16File, bool) {
 }
 
 func runC16(c *ev.Ctx) {
-	c.Rule = "files from Encode (all kinds), AnimEncoder, Muxer, libwebp, the synthesizers and 16 hand-assembled container variants (VP8X with/without ALPH, empty / opaque / " +
+	c.Rule = "files from Encode (all kinds), AnimEncoder, Muxer (animations, and lone frames at odd/even offsets with and without explicit canvas and metadata), libwebp, the synthesizers and 16 hand-assembled container variants (VP8X with/without ALPH, empty / opaque / " +
 		"short / compressed ALPH, unknown chunks before/between/after, metadata before/after the image, flags over- and under-stating, trailing bytes, reserved bits, " +
 		"single-frame animation), 9 animations of 4095..65537 one-pixel frames around any frame-count limit (views accept all or none); oracles: Decode's actual result vs DecodeConfig/GetFeatures/image.DecodeConfig/image.Decode; mutual agreement of GetFeatures, DecodeConfig, " +
 		"Demuxer and animation reader on canvas, animation flag, frame count and (animated only) loop count; distinct = (source kind/variant, codec, alpha, accepted-by set)"
@@ -170,6 +170,9 @@ func runC16(c *ev.Ctx) {
 		files = append(files, c16File{Name: f.Name, Data: f.Data, OwnWriter: true})
 	}
 	for _, f := range muxAnimCorpus(r, c.N(300, 30000)) {
+		files = append(files, c16File{Name: f.Name, Data: f.Data, OwnWriter: true})
+	}
+	for _, f := range muxLoneCorpus(r, c.N(150, 8000)) {
 		files = append(files, c16File{Name: f.Name, Data: f.Data, OwnWriter: true})
 	}
 	nh := c.N(6000, 1000000)
